@@ -84,6 +84,26 @@ def run_case(c):
     stats = Counter()
     violations = []
     distinct = 0
+
+    def engines_disagree(inp_):
+        """whole-input matching uses `re`, fragment-wise (partial) matching uses the third-party `regex` module: the two
+        classify some characters differently under the class escapes (e.g. superscripts and fractions are \\w for `re`
+        only).  True iff the grammar has a regex terminal with a class escape under which some character of the input
+        is classified differently by the two engines."""
+        import re as _re
+        import regex as _regex
+
+        if isinstance(inp_, bytes):
+            return False
+        for e_ in model.all_exprs():
+            if e_[0] != "regex" or e_[2]:
+                continue
+            for esc in ("\\w", "\\d", "\\s", "\\W", "\\D", "\\S"):
+                if esc in e_[1]:
+                    for ch in set(inp_):
+                        if bool(_re.fullmatch(esc, ch)) != bool(_regex.fullmatch(esc, ch)):
+                            return True
+        return False
     alpha = inputs.alphabet(model)
     # inputs
     ws = model.words("<start>", max_len=10 if not binary else 6, cap=600)
@@ -207,6 +227,8 @@ def run_case(c):
                             okx = False
                     if okx:
                         mech = "regex-longest-match-only-when-fed-at-once"
+                if mech is None and len(set(got)) < len(set(ref_forest)) and engines_disagree(inp):
+                    mech = "partial-match-engine-classifies-characters-differently"
                 violations.append({"what": f"input {inp!r} fed as {frags!r}: {len(set(got))} distinct complete parses after the last fragment, {len(set(ref_forest))} when fed at once"
                                            + ("" if len(set(got)) != len(set(ref_forest)) else " (different trees)"), "mech": mech})
             if len(violations) > 6:
@@ -225,7 +247,8 @@ def run_case(c):
             stats["protocol_style_feeds"] += 1
             if ref_forest:
                 if first is None or first[0] is None or not first[1]:
-                    violations.append({"what": f"input {inp!r} fed symbol by symbol, first tree only (packetparser style): no complete parse after the last symbol, {len(ref_forest)} when fed at once", "mech": None})
+                    violations.append({"what": f"input {inp!r} fed symbol by symbol, first tree only (packetparser style): no complete parse after the last symbol, {len(ref_forest)} when fed at once",
+                                       "mech": "partial-match-engine-classifies-characters-differently" if engines_disagree(inp) else None})
                 elif repr(shape(ip.collapse(first[0]))) not in ref_forest:
                     violations.append({"what": f"input {inp!r} fed symbol by symbol: the complete parse differs from every parse of the whole input", "mech": None})
             else:
